@@ -773,7 +773,8 @@ func (s *State) applyFunction(name string, fn object.Object, args []object.Objec
 		return res
 	}
 	// Don't cache functions: a returned closure carries the mutable environment of this very call.
-	if res.Type() == object.FUNC {
+	// Same for a closure returned inside an array or a map.
+	if containsFunction(res) {
 		return res
 	}
 	// Don't cache errors, as it could be due to binding for instance.
@@ -784,6 +785,29 @@ func (s *State) applyFunction(name string, fn object.Object, args []object.Objec
 	s.cache.Set(function.CacheKey, args, res, output)
 	log.Debugf("Cache miss for %s %v", function.CacheKey, args)
 	return res
+}
+
+// containsFunction tells if the value is a function or a container holding one (at any depth).
+func containsFunction(o object.Object) bool {
+	switch o.Type() { //nolint:exhaustive // only these can hold a function.
+	case object.FUNC:
+		return true
+	case object.ARRAY:
+		for _, e := range object.Elements(o) {
+			if containsFunction(e) {
+				return true
+			}
+		}
+	case object.MAP:
+		m := object.Value(o).(object.Map)
+		for _, k := range object.Elements(o) {
+			v, _ := m.Get(k)
+			if containsFunction(k) || containsFunction(v) {
+				return true
+			}
+		}
+	}
+	return false
 }
 
 func (s *State) extendFunctionEnv(
